@@ -19,6 +19,10 @@ bool ops_codec(Ctx& c, const json& s, int idx, bool& handled) {
 		for (auto& u : s["seq"]) { ++k; unsigned x = u["x"]; bool ok = !throws([&] { t.UpdateCodeCount(x); }); auto w2 = [&](const std::string& e) { return where("after " + std::to_string(k) + " updates, last " + std::to_string(x) + " " + e); };
 			if (ok != u["ok"].get<bool>()) { Proto::mismatch(site + (x >= (unsigned)N ? "/out-of-range" : "/update"), ok ? "accepted-should-refuse" : "refused-should-accept", w2("")); return false; }
 			if (!huff_check(t, N, u["obs"], site + (ok ? "/update" : "/refused"), w2)) return false; }
+		// every other symbol outside the alphabet is refused by the update and by the encoder, and leaves the tree as it is
+		if (s.contains("refused")) for (auto& rj : s["refused"]) { const unsigned x = rj.get<unsigned>(); unsigned bc = 0;
+			if (!throws([&] { t.UpdateCodeCount((unsigned short)x); }) || !throws([&] { t.GetEncodedBitString((unsigned short)x, bc); })) { Proto::mismatch(site + "/out-of-range", "accepted-should-refuse", where("symbol " + std::to_string(x))); return false; }
+			if (!huff_check(t, N, s["final"], site + "/refused", [&](const std::string& e) { return where("after the refused symbol " + std::to_string(x) + " " + e); })) return false; }
 		// node indices beyond the tree are refused by every accessor
 		unsigned bad = 2 * N - 1; if (!(throws([&] { t.IsLeaf(bad); }) && throws([&] { t.GetChildNode(bad, false); }) && throws([&] { t.GetNodeData(bad); }))) { Proto::mismatch(site + "/node-index", "accepted-should-refuse", where("")); return false; }
 		return true; }
